@@ -173,6 +173,19 @@ def _P(rnd, nin):
         op(rnd.choice(["GT", "LT", "SGT", "SLT"]), c(0), X), op(rnd.choice(["GT", "LT", "SGT", "SLT"]), X, c(0)),
         op(rnd.choice(["AND", "OR", "XOR"]), X, c(rnd.choice([0, MASK]))),
         op("ISZERO", c(rnd.choice([0, 1, 2]))), op("NOT", c(rand_const(rnd))),
+        # near misses: the same shapes with the operands of the non-commutative operation (or of the pattern's
+        # inner operation) exchanged, the signed variant, or the constant one off -- a rule must NOT fire or must
+        # fire with the mirrored result
+        op("DIV", op("SHL", Y, c(1)), X), op("SDIV", X, op("SHL", Y, c(1))), op("DIV", X, op("SHL", c(1), Y)),
+        op("MUL", X, op("SHL", c(1), Y)), op("DIV", X, op("SHL", Y, c(2))), op("MOD", X, op("SHL", Y, c(1))),
+        op(rnd.choice(["LT", "GT", "SLT", "SGT"]), X, c(1)), op(rnd.choice(["LT", "GT", "SLT", "SGT"]), c(1), X),
+        op("ISZERO", op(rnd.choice(["LT", "SLT", "SGT"]), X, c(0))), op("ISZERO", op(rnd.choice(["GT", "SLT", "SGT"]), c(0), X)),
+        op("EQ", c(rnd.choice([1, 2, MASK])), X), op("EQ", op("ISZERO", X), c(rnd.choice([0, 2]))),
+        op("EXP", X, c(2)), op("EXP", c(MASK), X), op("SUB", c(0), X), op("ISZERO", op("ADD", X, Y)),
+        op("ISZERO", op("ISZERO", op("ISZERO", op("ISZERO", X)))), op("NOT", op("ISZERO", op("NOT", X))),
+        sw("AND", X, op("OR", Y, Z)), sw("OR", X, op("AND", Y, Z)), sw("XOR", X, op("XOR", Y, Z)), sw("AND", X, op("NOT", Y)),
+        sw("AND", op("SHL", X, Y), op("SHR", X, Z)), op("AND", op("SHL", X, Y), op("SHL", Z, Y)),
+        op("BALANCE", ("env", rnd.choice(["CALLER", "ORIGIN"]))), sw("AND", ("env", "CALLVALUE"), c((1 << 160) - 1)),
         # pure constant folding, boundary operands
         op(rnd.choice(BIN), c(rnd.choice(CONST_POOL)), c(rnd.choice(CONST_POOL))),
         op(rnd.choice(BIN), c(rand_const(rnd)), c(rand_const(rnd))),
